@@ -740,6 +740,31 @@ def is_field_read(body, op, adt, field, depth=4):
     return False
 
 
+_FLIP = {"Lt": "Gt", "Gt": "Lt", "Le": "Ge", "Ge": "Le", "Eq": "Eq", "Ne": "Ne"}
+
+
+def rel_edges(cd, pred_a, pred_b, prov):
+    """For an ordered / equality comparison between an `A` operand (pred_a(roots)) and a `B` operand (pred_b(roots)),
+    written either way round with any operator: {relation that holds for (A, B): target block} for both edges, e.g.
+    {"Le": 7, "Gt": 9} for `if b < a {9} else {7}`.  {} if the switch is not such a comparison."""
+    if cd.kind != "cmp" or cd.op not in _FLIP:
+        return {}
+    l, r = prov.of_operand(cd.lhs), prov.of_operand(cd.rhs)
+    if pred_a(l) and pred_b(r):
+        op = cd.op
+    elif pred_a(r) and pred_b(l):
+        op = _FLIP[cd.op]
+    else:
+        return {}
+    out = {}
+    tt, ft = cd.true_target(), cd.false_target()
+    if tt is not None:
+        out[op] = tt
+    if ft is not None:
+        out[NEG[op]] = ft
+    return out
+
+
 def comparison_sites(body, pred, prov=None):
     """Equality comparisons `a == b` / `a != b` (MIR BinaryOp or PartialEq::eq/ne call) whose operand roots satisfy
     `pred(roots_a, roots_b)` in either order.  -> [(start_bb, start_si, result_local, value_meaning_equal, site_bb)]:
